@@ -127,6 +127,20 @@ class Prog:
                 "subroutine %s(q_arg)" % pn, "  integer, intent(in) :: q_arg", "end subroutine %s" % pn]})
         for _ in range(r.choice([0, 1, 2, 3])):
             sc["contains"].append(self.proc(1, [d["name"] for d in sc["decls"] if d["name"]]))
+        # declarations whose type is a procedure interface: PROCEDURE(iface), POINTER :: p  -- valid in the specification part
+        ifaces = [t for t in sc["types"] if t["kind"] == "interface"]
+        subs = [c for c in sc["contains"] if c["kind"] == "subroutine" and not c["args"]]
+        if r.random() < 0.6 and (ifaces or subs):
+            tgt = r.choice(ifaces)["name"] if ifaces and (not subs or r.random() < 0.5) else r.choice(subs)["name"]
+            sc["decls"].append({"text": "procedure(%s), pointer :: %s => null()" % (tgt, self.name("pp")), "name": None})
+        # an entity of a type of this module, and an interface body that imports that type
+        tys = [t for t in sc["types"] if t["kind"] == "type"]
+        if tys and r.random() < 0.5:
+            t = r.choice(tys)
+            sc["decls_after_types"] = [{"text": "type(%s) :: %s" % (t["name"], self.name("o")), "name": None}]
+            bn = self.name("ib")
+            sc["types"].append({"kind": "interface", "name": bn, "open": "interface", "host_type": t["name"], "lines": [
+                "subroutine %s(q_obj)" % bn, "  import :: %s" % t["name"], "  type(%s), intent(in) :: q_obj" % t["name"], "end subroutine %s" % bn]})
         return sc
 
     def program(self):
@@ -175,7 +189,13 @@ def render(prog, pre=(), post=()):
             emit(d, ind + 2)
         if needs_loop:
             emit({"text": "integer :: i_loop"}, ind + 2)
-        for t in sc["types"]:
+        typedefs = [t for t in sc["types"] if t["kind"] == "type"]
+        others = [t for t in sc["types"] if t["kind"] != "type"]
+        for t in typedefs + [None] + others:
+            if t is None:
+                for d in sc.get("decls_after_types", []):
+                    emit(d, ind + 2)
+                continue
             emit({"text": t["open"], **({"tag": t["open_tag"]} if "open_tag" in t else {})}, ind + 2)
             if t["kind"] == "type":
                 for m in t["members"]:
@@ -189,7 +209,7 @@ def render(prog, pre=(), post=()):
                 emit({"text": "end type %s" % t["name"], **({"tag": t["end_tag"]} if "end_tag" in t else {})}, ind + 2)
             else:
                 for l in t["lines"]:
-                    emit({"text": l}, ind + 4)
+                    emit(l if isinstance(l, dict) else {"text": l}, ind + 4)
                 emit({"text": "end interface"}, ind + 2)
         for e in sc["execs"]:
             emit(e, ind + 2)
@@ -274,6 +294,20 @@ def seed_type_not_accessible(prog, r):
     u["decls"].append({"text": "type(%s) :: zz_obj" % t["name"], "tag": "X", "name": "zz_obj"})
     hidden = any(d["text"] == "private" for d in m["decls"])
     return {"variant": "-private" if hidden else ""}, ('Object "%s" not found in scope' % t["name"].lower(), 1, "X")
+
+
+def seed_type_not_imported(prog, r):
+    """an interface body uses a type of its host module without IMPORT; the host declares an entity of that type itself"""
+    cands = [(sc, t) for (sc, _) in prog.scopes() if sc["kind"] == "module" for t in sc["types"] if t["kind"] == "type"]
+    if not cands:
+        return None
+    sc, t = r.choice(cands)
+    if r.random() < 0.7 and not sc.get("decls_after_types"):
+        sc["decls_after_types"] = [{"text": "type(%s) :: zz_origin" % t["name"], "name": None}]
+    sc["types"].append({"kind": "interface", "name": "zz_draw", "open": "interface", "lines": [
+        "subroutine zz_draw(zz_p)", {"text": "  type(%s), intent(in) :: zz_p" % t["name"], "tag": "X"}, "end subroutine zz_draw"]})
+    hidden = any(d["text"] == "private" for d in sc["decls"])
+    return {"variant": "-private" if hidden else ""}, ('Object "%s" not imported in interface' % t["name"].lower(), 1, "X")
 
 
 def reaches(prog, u, m):
@@ -397,7 +431,7 @@ def seed_long_line(prog, r):
 
 
 CLASSES = [("declared-twice", seed_twice), ("masks-host", seed_mask), ("open-block-bare-end", seed_open_block), ("unknown-module", seed_unknown_module),
-           ("type-not-accessible", seed_type_not_accessible), ("undeclared-dummy", seed_undeclared_dummy), ("intent-not-arg", seed_intent_not_arg),
+           ("type-not-accessible", seed_type_not_accessible), ("type-not-imported-in-interface", seed_type_not_imported), ("undeclared-dummy", seed_undeclared_dummy), ("intent-not-arg", seed_intent_not_arg),
            ("second-contains", seed_second_contains), ("outside-scope", seed_outside_scope), ("import-outside-interface", seed_import_outside),
            ("use-after-implicit", seed_use_after_implicit), ("proc-before-contains", seed_proc_before_contains),
            ("proc-in-type-or-block", seed_proc_in_type_or_block), ("deferred-not-implemented", seed_deferred), ("long-line", seed_long_line)]
@@ -422,6 +456,11 @@ def diagnostics_of(text, server_args=()):
 
 
 VALID_CORPUS = [
+    "module cb\n implicit none\n abstract interface\n  subroutine handler_iface(code)\n   integer, intent(in) :: code\n  end subroutine handler_iface\n end interface\n"
+    " procedure(handler_iface), pointer :: on_error => null()\n procedure(square), pointer :: fp\ncontains\n real function square(x)\n  real, intent(in) :: x\n  square = x*x\n end function square\n"
+    " subroutine apply(f, g)\n  procedure(square) :: f\n  procedure(handler_iface) :: g\n  print *, f(2.0)\n  call g(1)\n end subroutine apply\nend module cb\n",
+    "module shp\n implicit none\n integer, parameter :: wp = kind(1.0d0)\n type :: point\n  real(wp) :: x, y\n end type point\n type(point) :: origin\n interface\n  subroutine draw(p, scale)\n"
+    "   import :: point, wp\n   type(point), intent(in) :: p\n   real(wp), intent(in) :: scale\n  end subroutine draw\n end interface\nend module shp\n",
     "program p\n implicit none\n integer :: x\n block\n  type :: t\n   integer :: a\n  end type t\n  type(t) :: v\n  v%a = 1\n end block\nend program p\n",
     "module m\n implicit none\ncontains\n subroutine s()\n  block\n   use iso_fortran_env\n   integer(int32) :: k\n   k = 1\n  end block\n end subroutine\nend module m\n",
     "module m\n implicit none\n enum, bind(c)\n enumerator :: a=1, b\n end enum\n interface operator(+)\n module procedure addx\n end interface\ncontains\n"
